@@ -83,12 +83,11 @@ RecoverOk(e) ==       \* parts: [junk, msg, alone = parse(msg)]; steps: the sess
 \* ---------------------------------------------------------------- C09: res = parse with filter, res0 = parse without
 FilterOk(e) ==
   LET r == e.res  r0 == e.res0  cfg == e.flt[1] IN
-  CASE r0.v = "msg" -> IF Dropped(cfg, r0.m.h, r0.m.x)
+  CASE r0.v = "msg" /\ ~WellFormed(r0.m) -> TRUE          \* the property quantifies over well-formed messages
+    [] r0.v = "msg" -> IF Dropped(cfg, r0.m.h, r0.m.x)
                        THEN r.v = "filtered" /\ r.n = r0.m.h.plen /\ r.consumed = r0.consumed
                        ELSE r.v = "msg" /\ r.m = r0.m /\ r.consumed = r0.consumed
-    [] r0.v = "inc" -> r.v = "inc"
-    [] r0.v = "rej" -> r.v \in {"rej", "filtered"}        \* headers may be enough to drop a message whose payload is malformed
-    [] OTHER -> r.v = r0.v
+    [] OTHER -> TRUE                                       \* incomplete / rejected input: outside the property's quantifier
 
 \* ---------------------------------------------------------------- C13
 ConstructOk(e) == LET d == ConstructArgs(e.types, e.data, e.be)  r == e.res IN
